@@ -399,7 +399,7 @@ func documentedRefusalIn(p *protobufcompiled.Transaction) bool {
 func trxProto(t *transaction.Transaction) (out transaction.Transaction, refused string, pe *pathErr) {
 	stage := "to-proto"
 	defer guard(&stage, &pe)
-	pt, err := transformers.TrxToProtoTrx(*t)
+	pt, err := world.TrxToProto(*t)
 	if err != nil {
 		if documentedRefusalOut(t) {
 			return out, "outbound", nil
@@ -1130,6 +1130,11 @@ func run() int {
 
 	// ---- phase 0b: the storage read path of a real ledger (boundary vertices written to the checkpoint storage)
 	if code := storagePart(rep); code != 0 {
+		return code
+	}
+
+	// ---- phase 0c: answers of the notary service that carry several transactions at once
+	if code := batchPart(rep); code != 0 {
 		return code
 	}
 
